@@ -68,6 +68,11 @@ CHECKS = {
          "Every fixture and a seeded sample of generated documents of all formats is extracted twice in-process and in fresh interpreters under four PYTHONHASHSEED values; the to_json digests must agree and the input "
          "buffer must be unchanged. For every input, random sequences of observers (text, units, images incl. partial reads, tables, metadata, JSON forms) must return the same value each time and never change to_json().",
          "Hash seeds and histories are sampled; failures of extraction are compared by exception type only.", "DESIGN.md §4 C06"),
+ "C04": ("exploration", "Hypothesis: generated documents of every format with Unicode document properties, container-aware mutants that are still accepted, all fixtures x path-argument forms; interface battery oracle",
+         "For results of 21 extractors over generated documents/spreadsheets/image documents (document properties from a Unicode strategy, OLE code pages 1252/65001/1200), fixtures and accepted mutants, with nine path-argument "
+         "forms, a battery checks every accessor of the result and of each reachable unit/image/table (types, UTF-8 well-formedness, positive numbers, stream position/length, dims, file metadata vs an independent derivation, "
+         "stored document properties reported unchanged, nothing raises, well-formed generated documents are not rejected).",
+         "Property strings have no leading/trailing whitespace or control characters; .msg and real .doc piece tables are covered by fixtures and mutants only.", "DESIGN.md §4 C04"),
 }
 NOT_YET = {}
 
